@@ -42,7 +42,10 @@ def specs_for(ctx):
         specs.append({"tissue": tissue, "k": rng.choice([1, 2, 3, 5, 8]), "seed": rng.randrange(10 ** 9), "want": ["C16"],
                       "sim": {"theta": rng.uniform(0, 2 * math.pi), "scale": 10 ** rng.uniform(-1, 1), "offset_sizes": rng.uniform(0, 2),
                               "extent": ext, "reflect": rng.random() < 0.3},
-                      "build": {"limit": lim, "fit": rng.choice(["dlite", "taubinSVD"])}, "solve": solve})
+                      "build": {"limit": lim, "fit": rng.choice(["dlite", "taubinSVD"]), "no_metadata": rng.random() < 0.6,
+                                "prebuild": ({"limit": rng.choice(["pi", 2.0, 2.6, "inf"]), "fit": "dlite", "ignore_four": None}
+                                             if rng.random() < 0.3 else None)},
+                      "solve": solve})
     return specs
 
 
